@@ -9,7 +9,7 @@ from common import *
 import iterchecks
 
 
-def start_state_obligations(src, mir):
+def start_state_obligations(src, mir, bins):
     """scope() + into_iter()/new() executed on the real MIR with symbolic scope arguments (concrete flop, one 2-combo range)"""
     import z3, mirx
     from mlib import (load_lib, fn, run_fn, is_panic, Agg, Arr, PyObj, Int, Flt, Ref, Cell, some, NONE, mk_card, F32, decide, card_key, ENUMS)
@@ -43,6 +43,7 @@ def start_state_obligations(src, mir):
     names = [f for f, _ in fields]
     nq = 0
     bad = []
+    witness = []
     for r in res:
         if is_panic(r):
             bad.append('scope() panics on a valid window: ' + r.result[1]); continue
@@ -51,6 +52,8 @@ def start_state_obligations(src, mir):
         c, m, dt = decide(r.pc, z3.And(got[0] == tf, got[1] == rf, got[2] == tt, got[3] == rt)); nq += 1
         if c != 'unsat':
             bad.append(f'scope() does not store its arguments ({c})')
+            if m is not None:
+                witness.append([m.eval(x, model_completion=True).as_long() for x in (tf, rf, tt, rt)])
         # into_iter == new(&self)
         res2 = run_fn(M, f_new, [Ref(Cell('ev2', evv), [])], r.pc)
         for q in res2:
@@ -77,9 +80,29 @@ def start_state_obligations(src, mir):
             c, m, dt = decide(q.pc, z3.And(*props)); nq += 1
             if c != 'unsat':
                 bad.append(f'into_iter() start state wrong ({c})')
+                if m is not None:
+                    witness.append([m.eval(x, model_completion=True).as_long() for x in (tf, rf, tt, rt)])
+    cex = None
+    if bad:
+        cex = dict(reproduced=False, detail=bad)
+        for wn in witness[:3]:
+            # native: a scoped run over exactly that window must equal the reference restricted to [from, to)
+            rc, kv, raw = replay(bins, 'debug', ['enumerate', 'Qs8d2h', ','.join(map(str, wn)), '2', 't:AsKs,JhJd'])
+            nb = ''
+            if 'panic' in kv:
+                nb = 'panic: ' + kv['panic']
+            else:
+                for key in ('extra', 'missing', 'yielded_twice', 'order_bad', 'after_exhaustion', 'repeated_card'):
+                    if kv.get(key, '0') != '0':
+                        nb = f"window {wn}: {key}={kv[key]} (count={kv.get('count')} expected={kv.get('expected')}) first: {kv.get('first_bad')}"
+                        break
+            if nb:
+                cex = dict(reproduced=True, detail=bad, window=wn, native=nb, history=dict(flop='Qs8d2h', scope=','.join(map(str, wn)), ranges=['t:AsKs,JhJd'], position=[wn[0], wn[1]], whole_window=True))
+                bad.append('native: ' + nb)
+                break
     obs.append(Obligation('scope()-stores-window;into_iter()-starts-at-from-with-zero-odometer-and-rank-major-deck',
                           'holds' if not bad else 'violated', '; '.join(bad) or f'{nq} queries UNSAT over all valid windows (symbolic tf,rf,tt,rt)',
-                          cex=dict(reproduced=False, detail=bad) if bad else None, key='start-state', queries=nq))
+                          cex=cex, key='start-state', queries=nq))
     return obs
 
 
@@ -92,12 +115,12 @@ def main():
     extra = []
     try:
         src0 = snapshot('src-start')
-        extra = start_state_obligations(src0, mir_dump(src0, 'dev'))
+        extra = start_state_obligations(src0, mir_dump(src0, 'dev'), replay_build(src0, ('debug',)))
     except Exception as e:
         import traceback
         extra = [Obligation('start-state', 'inconclusive', (str(e) + traceback.format_exc())[-800:])]
     ns = [1, 2] if a.tier == 'quick' else [1, 2, 3]
-    configs = [('dev', n, False) for n in ns]
+    configs = [('dev', n, False) for n in ns] + [c for c in iterchecks.ctor_configs(seed, ('dev',), True) if 0 not in [len(r) for r in c[3]['ranges']]][:3]
     iterchecks.run_configs('C04', 'c04', configs, a.tier, seed, t0, extra_obs=extra,
                            assumptions=['positions and scope ends are the 1176 valid positions plus the terminal (48,49), as the property states; (t,49) with t<48 is not a position (C16)',
                                         'scope start <= scope end', 'tiling of chained half-open windows follows from the step obligations by concatenation (one-line argument, not a solver step)'])
